@@ -80,6 +80,14 @@ def handleGeom (op : String) (args : List String) : String :=
         showTs ((Transform.identity : Transform Float32).preConcat newTs)
       | none => "bad-op"
     | _, _, _, _ => "bad-op"
+  | "imagefit", [al, sl, x, y, w, h, aw, ah] =>
+    -- image.rs convert_inner: the transform of the image group for element rect (x y w h) and image size aw x ah
+    match parseAlign? al, allSome ([x, y, w, h, aw, ah].map parseHw?) with
+    | some al, some [x, y, w, h, aw, ah] =>
+      match imageTransform al (sl == "slice") (LTRB.fromXywh x y w h) aw ah with
+      | some t => showTs (Transform.fromRow t.sx (Flt.ofNat 0) (Flt.ofNat 0) t.sy t.tx t.ty)
+      | none => "none"
+    | _, _ => "bad-op"
   | "concat", rest =>
     match parseTs? rest with
     | some (a, rest) => match parseTs? rest with
